@@ -163,7 +163,11 @@ def gen_case(rng, kind):
         c['offset'] = rng.choice([False, False, True]) if kind == 'as' else False
         c['fmt'] = rng.choice(['none', 'set', 'set'])
     else:
-        c['npts'] = rng.choice([(2, 2), (3, 3), (2, 2, 2), (3,)])    # equal points per measure: the layout Monitor.get_ipos documents
+        c['npts'] = rng.choice([(2, 2), (3, 3), (2, 2, 2), (3,)])    # equal points per measure
+        # product measures with UNEQUAL points per measure (mystic's own examples use npts = (2, 1, 1)); own generator, so
+        # the other draws keep their values.  Every failure there carries the sub-case tag #nonuniform-npts (finding F47)
+        if random.Random(c['seed'] * 3 + 1).random() < 0.12:
+            c['npts'] = random.Random(c['seed'] * 3 + 2).choice([(1, 3), (3, 1), (2, 1, 1), (1, 2), (2, 4)])
         c['nd'] = 2 * sum(c['npts'])
         c['fmt'] = rng.choice(['none', 'set', 'dict', 'where', 'where'])
     c['mask_from'] = rng.choice(['empty', 'true', 'true', 'mixed', 'other'])
@@ -244,10 +248,7 @@ def check_detector(res, c):
                                                      set(items) | canon(kind, got)))
         own = call_detector(c, mon, tgt, got if got else None) if c['fmt'] == 'none' else None
     except Exception as e:
-        if uniform:
-            res.violation(key + 'raises', 'detector raised %r on a well-formed monitor/mask %r' % (e, mask), c)
-        else:
-            res.extra['aborted'] = res.extra.get('aborted', 0) + 1
+        res.violation(key + 'raises' + tag, 'detector raised %r on a well-formed monitor/mask %r (npts %r)' % (e, mask, npts), c)
         return
     if canon(kind, got) != want:
         res.violation(key + 'definition' + tag, 'reported %r, definition minus mask gives %r (mask %r, target %r)'
